@@ -4,7 +4,8 @@
 (* One line: an expression tree t.e over                                   *)
 (*   box(ents)      a 2x2 tensor box on one wire of dimension 2 whose four *)
 (*                  entries are affine forms  c0/8 + cx x + cy y,          *)
-(*   then(l, r), tensor(l, r),                                             *)
+(*                  (dg = 1: the adjoint box, its transpose: real symbols), *)
+(*   then(l, r), tensor(l, r), plus(l, r) (a formal sum, at the top only),  *)
 (*   bubble(fn, l)  the entrywise image under a polynomial fn (single-wire *)
 (*                  bubbles only, as the statement says),                  *)
 (* a symbol t.v and a point t.pt (eighths).  TLC computes, exactly, the    *)
@@ -26,7 +27,10 @@ DFn(name, z) == CASE name = "sq" -> Mul(FromInt(2), z)
                   [] name = "oneminus" -> Neg(ROne)
 RECURSIVE EvD(_, _, _)
 EvD(n, pt, v) ==
-  CASE n.op = "box" -> [val |-> Box22(n.ents, LAMBDA f : At(f, pt)), der |-> Box22(n.ents, LAMBDA f : CoefOf(f, v))]
+  CASE n.op = "box" -> LET es == IF n.dg = 1 THEN <<n.ents[1], n.ents[3], n.ents[2], n.ents[4]>> ELSE n.ents IN   \* adjoint: transposed (real symbols)
+         [val |-> Box22(es, LAMBDA f : At(f, pt)), der |-> Box22(es, LAMBDA f : CoefOf(f, v))]
+    [] n.op = "plus" -> LET a == EvD(n.l, pt, v) b == EvD(n.r, pt, v) IN
+         [val |-> AddT(a.val, b.val), der |-> AddT(a.der, b.der)]
     [] n.op = "then" -> LET a == EvD(n.l, pt, v) b == EvD(n.r, pt, v) IN
          [val |-> MatThen(a.val, b.val), der |-> AddT(MatThen(a.der, b.val), MatThen(a.val, b.der))]
     [] n.op = "tensor" -> LET a == EvD(n.l, pt, v) b == EvD(n.r, pt, v) IN
@@ -39,7 +43,7 @@ Syms(n) == CASE n.op = "box" -> UNION { FS(n.ents[k]) : k \in 1..4 }
              [] OTHER -> Syms(n.l) \cup Syms(n.r)
 OutG(t) == LET rx == EvD(t.e, t.pt, "x") ry == EvD(t.e, t.pt, "y") IN
   [depends |-> t.v \in Syms(t.e), val |-> rx.val.a, dx |-> rx.der.a, dy |-> ry.der.a,
-   rows |-> Size(rx.val.dom), cols |-> Size(rx.val.cod)]
+   rows |-> Size(rx.val.dom), cols |-> Size(rx.val.cod), plus |-> t.e.op = "plus"]
 Verdicts == LET TR == ndJsonDeserialize(IOEnv.TRACE_FILE) IN [l \in 1..Len(TR) |-> OutG(TR[l])]
 ASSUME ndJsonSerialize(IOEnv.OUT, Verdicts)
 TVInit == PInit
